@@ -56,6 +56,7 @@ func (r *Receiver) SegmentHandlerFunc(w http.ResponseWriter, req *http.Request) 
 	}
 	ch, ok := r.channelMgr.GetChannel(stream.chName)
 	if !ok {
+		verifGate("add:" + stream.trName)
 		r.channelMgr.AddChannel(r.ctx, stream.chName, stream.chDir)
 		slog.Debug("Created new  channel", "name", stream.chName, "dir", stream.chDir)
 		ch, _ = r.channelMgr.GetChannel(stream.chName)
@@ -83,7 +84,9 @@ func (r *Receiver) SegmentHandlerFunc(w http.ResponseWriter, req *http.Request) 
 		discardUpload(w, req, http.StatusOK)
 		return
 	}
+	verifGate("streams_r:" + stream.trName)
 	if _, ok := r.streams[stream.id()]; !ok {
+		verifGate("streams_w:" + stream.trName)
 		log.Info("New stream", "urlPath", path, "streamId", stream.id(), "mediaType", stream.mediaType)
 		r.streams[stream.id()] = stream
 		err := os.MkdirAll(stream.trDir, 0755)
@@ -165,6 +168,7 @@ func (r *Receiver) SegmentHandlerFunc(w http.ResponseWriter, req *http.Request) 
 			}
 			seg := chunk.Segments[0]
 			moof := seg.Fragments[0].Moof
+			verifGate("trdatas_r:" + trName)
 			trd, ok := ch.trDatas[trName]
 			if !ok {
 				return fmt.Errorf("failed to find track data trName: %s", trName)
